@@ -330,6 +330,10 @@ def jobs(tier):
         js.append(Job(f"migrate[{k}]", C06.job_migrate, paint=k))
     for h in (24, 128, 1000):
         js.append(Job(f"advance[fn,h={h}]", C04.job_advance, h=h, kind="fn"))
+    # real picosvg-normal sources through ColorGlyph.create/_painted_layers (z-order, groups, gradients)
+    from harness import C01_source
+
+    js += C01_source.jobs("thorough")
     # obligations that discharge the contracts used above (paint.transformed, radial split)
     from harness import C16, C16_radial
 
@@ -346,7 +350,7 @@ def main(tier):
         explanation="Bounded symbolic execution of the arithmetic that places and paints a COLRv1 glyph: viewBox->font placement, gradient parsing/transform/radial split on real lxml elements, the reuse counter-transform (shared with C06), ufo COLR layer emission.",
         bounds={"view box": "x,y in [-4096,4096], w,h in [1,4096] symbolic", "metrics": "ascender 0..4000, descender -4000..0, width 0..8000 symbolic", "user transform": "identity / translation / general (entries [-4,4], translation [-2000,2000])",
                 "gradients": "8 concrete SVG gradient elements (bbox/userSpace x transform x linear/radial x focal), symbolic shape bbox, metrics and opacity; fixed 128x128 view box", "stops": "2"},
-        outside=["SVG parsing and normalisation (picosvg, Skia)", "_painted_layers tree walk (z-order/group nesting is structural; a reordering there is NOT detected here)", "outline quantisation", "ufo2ft/fontTools compilation", "real reuse detection"],
+        outside=["SVG normalisation (picosvg, Skia); sources are hand-written picosvg-normal documents (5 of them)", "outline quantisation", "ufo2ft/fontTools compilation", "real reuse detection"],
         assumptions=["gradient element numbers are concrete (picosvg parses them with float(str))", "paint.transformed/_decompose_uniform_transform/Affine2D.inverse replaced by contracts discharged in C16"],
         shims=["std + numeric shims"],
         stubs=["ufo/SVG attribute bags for ColorGlyph"],
